@@ -39,6 +39,34 @@ Theorem C17_scalar_without_type_refused : forall e cfg src kv,
 Proof. exact scalar_without_type_refused. Qed.
 Print Assumptions C17_scalar_without_type_refused.
 
+(* ================= the error names a violated constraint ================= *)
+(* whatever error the settings raise, it is the error of a check that belongs to a row of the documented
+   table which is false for this configuration: no spurious reason is ever reported *)
+Theorem C17_error_names_violated_constraint : forall e r sc x,
+  client_post_init e r sc = Err x ->
+  exists id, In (id, Some x) (client_check_rows e r) /\ In (id, false) (client_constraints e r).
+Proof. exact client_error_names_violated_constraint. Qed.
+Print Assumptions C17_error_names_violated_constraint.
+
+Theorem C17_schema_error_names_violated_constraint : forall e r x,
+  schema_post_init e r = Err x ->
+  exists id, In (id, Some x) (schema_check_rows e r) /\ In (id, false) (schema_constraints e r).
+Proof. exact schema_error_names_violated_constraint. Qed.
+Print Assumptions C17_schema_error_names_violated_constraint.
+
+(* ================= header substitution ================= *)
+Theorem C17_headers_keys_preserved : forall e h h',
+  resolve_headers e h = Ok h' -> map fst h' = map fst h.
+Proof. exact resolve_headers_keys. Qed.
+Print Assumptions C17_headers_keys_preserved.
+
+Theorem C17_header_value_spec : forall e v v', get_header_value e v = Ok v' ->
+  if starts_dollar v
+  then v' <> "" /\ getenv e (l2s (drop_while is_dollar (s2l v))) = Some v'
+  else v' = v.
+Proof. exact header_value_spec. Qed.
+Print Assumptions C17_header_value_spec.
+
 (* ================= first_error_is_reported ================= *)
 Theorem C17_first_error_is_reported : forall e r sc pre x post,
   client_checks e r = pre ++ Some x :: post -> Forall (fun o => o = None) pre ->
@@ -112,6 +140,30 @@ Theorem C17_writes_only_when_done : forall e cfg w,
 Proof. exact run_client_writes_only_when_done. Qed.
 Print Assumptions C17_writes_only_when_done.
 
+(* ================= the two schema sources ================= *)
+(* schema_path is prioritised: with a local schema nothing is ever sent to remote_schema_url *)
+Theorem C17_schema_path_prioritised : forall e cfg w,
+  (forall c, get_client_settings e cfg = Ok c -> s_schema_path (c_base c) <> "" ->
+             no_http (fst (run_client e cfg w)) = true) /\
+  (forall g, get_graphql_schema_settings e cfg = Ok g -> s_schema_path (g_base g) <> "" ->
+             no_http (fst (run_schema e cfg w)) = true).
+Proof.
+  intros e cfg w. split; intros; [eapply run_client_schema_path_prioritised | eapply run_schema_schema_path_prioritised]; eauto.
+Qed.
+Print Assumptions C17_schema_path_prioritised.
+
+(* the remote route (decision chain of Model/Introspect.v): whatever the URL class, the status, the body and
+   graphql-core's verdict on the data, a refusal is IntrospectionError — unguarded *)
+Theorem C17_remote_failure_typed : forall e cfg w x,
+  (forall c, get_client_settings e cfg = Ok c -> s_schema_path (c_base c) = "" ->
+             snd (run_client e cfg w) = Failed PhSchema x -> x_cls x = IntrospectionError) /\
+  (forall g, get_graphql_schema_settings e cfg = Ok g -> s_schema_path (g_base g) = "" ->
+             snd (run_schema e cfg w) = Failed PhSchema x -> x_cls x = IntrospectionError).
+Proof.
+  intros e cfg w x. split; intros; [eapply run_client_remote_failure_typed | eapply run_schema_remote_failure_typed]; eauto.
+Qed.
+Print Assumptions C17_remote_failure_typed.
+
 (* ================= syntax / operations: acceptance implies every up-front check passed ================= *)
 Theorem C17_accepted_implies_checked : forall e cfg w,
   snd (run_client e cfg w) = Done ->
@@ -164,6 +216,9 @@ Qed.
 Print Assumptions C17_schema_validity_ignored.
 
 (* ================= witnesses ================= *)
+Definition ok_resp : Introspect.response :=
+  {| Introspect.r_status := 200%Z;
+     Introspect.r_body := Some (JObj [("data", JObj [("__schema", JObj [("types", JArr [])])])]) |}.
 Definition ex_env : env :=
   {| e_paths := [("s.graphql", PFile "type Query { a: Int }"); ("q.graphql", PFile "query Q { a }");
                  ("out", PDir); ("/deps/async_base_client.py", PFile "class AsyncBaseClient:")];
@@ -174,7 +229,7 @@ Definition ex_section (extra : section) : section :=
 Definition ex_cfg (extra : section) : json :=
   JObj [("project", JObj []); ("tool", JObj [("ariadne-codegen", JObj (ex_section extra))])].
 Definition ex_world (errs : list string) (b : build_res) : world :=
-  {| w_schema_files := [{| gf_path := "s.graphql"; gf_ok := true |}]; w_schema_build := b; w_remote := None;
+  {| w_schema_files := [{| gf_path := "s.graphql"; gf_ok := true |}]; w_schema_build := b; w_url := Introspect.UOk; w_resp := ok_resp; w_deep := None;
      w_schema_errors := errs; w_plugin_err := None;
      w_query_files := [{| gf_path := "q.graphql"; gf_ok := true |}]; w_op_errors := [];
      w_ops := [{| op_name := Some "GetQ"; op_err := None |}]; w_fragments := false; w_query_type := true; w_mutation_type := false |}.
@@ -209,7 +264,7 @@ Proof. vm_compute. auto. Qed.
 (* former observation, fixed in /repo d2e37b3, regression: GetA and getA both map to get_a.py *)
 Theorem C17_ops_same_module_refused_regression :
   let w := {| w_schema_files := [{| gf_path := "s.graphql"; gf_ok := true |}]; w_schema_build := BuildOk;
-              w_remote := None; w_schema_errors := []; w_plugin_err := None;
+              w_url := Introspect.UOk; w_resp := ok_resp; w_deep := None; w_schema_errors := []; w_plugin_err := None;
               w_query_files := [{| gf_path := "q.graphql"; gf_ok := true |}]; w_op_errors := [];
               w_ops := [{| op_name := Some "GetA"; op_err := None |}; {| op_name := Some "getA"; op_err := None |}];
               w_fragments := false; w_query_type := true; w_mutation_type := false |} in
@@ -258,6 +313,25 @@ Print Assumptions C17_typed_error_refuted.
 Theorem C17_copy_is_needed_refuted : exists cfg, config_after_client false cfg <> cfg.
 Proof. exists (ex_cfg [("include_comments", JBool true)]). vm_compute. discriminate. Qed.
 
+(* the remote route on concrete answers: 500, a body that is not JSON, data without __schema *)
+Example C17_remote_examples :
+  let cfg := JObj [("tool", JObj [("ariadne-codegen", JObj [("remote_schema_url", JStr "http://h/g");
+               ("queries_path", JStr "q.graphql"); ("target_package_path", JStr "out")])])] in
+  let w r := {| w_schema_files := []; w_schema_build := BuildOk; w_url := Introspect.UOk; w_resp := r;
+                w_deep := None; w_schema_errors := []; w_plugin_err := None;
+                w_query_files := [{| gf_path := "q.graphql"; gf_ok := true |}]; w_op_errors := [];
+                w_ops := [{| op_name := Some "Q"; op_err := None |}]; w_fragments := false; w_query_type := true;
+                w_mutation_type := false |} in
+  run_client ex_env cfg (w {| Introspect.r_status := 500%Z; Introspect.r_body := None |})
+    = ([EHttp "http://h/g"], Failed PhSchema (mkerr IntrospectionError
+         "Failure of remote schema introspection. HTTP status code: 500")) /\
+  snd (run_client ex_env cfg (w {| Introspect.r_status := 200%Z; Introspect.r_body := None |}))
+    = Failed PhSchema (mkerr IntrospectionError "Introspection result is not a valid json.") /\
+  snd (run_client ex_env cfg (w {| Introspect.r_status := 200%Z; Introspect.r_body := Some (JObj [("data", JObj [])]) |}))
+    = Failed PhSchema (mkerr IntrospectionError "Invalid or incomplete introspection result: ") /\
+  snd (run_client ex_env cfg (w ok_resp)) = Done.
+Proof. vm_compute. repeat split. Qed.
+
 (* ================= non-vacuity ================= *)
 Example C17_valid_accepted_and_written :
   snd (run_client ex_env (ex_cfg [("zzz", JInt 1)]) (ex_world [] BuildOk)) = Done /\
@@ -272,12 +346,12 @@ Example C17_each_phase_can_fail :
     = Failed PhSettings (mkerr InvalidConfiguration "Provided name 1x cannot be used as python identifier.") /\
   snd (run_client ex_env (ex_cfg [])
          {| w_schema_files := [{| gf_path := "s.graphql"; gf_ok := false |}]; w_schema_build := BuildOk;
-            w_remote := None; w_schema_errors := []; w_plugin_err := None; w_query_files := [];
+            w_url := Introspect.UOk; w_resp := ok_resp; w_deep := None; w_schema_errors := []; w_plugin_err := None; w_query_files := [];
             w_op_errors := []; w_ops := []; w_fragments := false; w_query_type := true; w_mutation_type := false |})
     = Failed PhSchema (mkerr InvalidGraphqlSyntax "Invalid graphql syntax in file s.graphql") /\
   snd (run_client ex_env (ex_cfg [])
          {| w_schema_files := [{| gf_path := "s.graphql"; gf_ok := true |}]; w_schema_build := BuildOk;
-            w_remote := None; w_schema_errors := []; w_plugin_err := None;
+            w_url := Introspect.UOk; w_resp := ok_resp; w_deep := None; w_schema_errors := []; w_plugin_err := None;
             w_query_files := [{| gf_path := "q.graphql"; gf_ok := true |}];
             w_op_errors := [("NoUnusedFragmentsRule", "Fragment 'F' is never used.");
                             ("ScalarLeafsRule", "Field 'me' must have a selection of subfields.")];
@@ -285,7 +359,7 @@ Example C17_each_phase_can_fail :
     = Failed PhQueries (mkerr InvalidOperationForSchema "Field 'me' must have a selection of subfields.") /\
   snd (run_client ex_env (ex_cfg [])
          {| w_schema_files := [{| gf_path := "s.graphql"; gf_ok := true |}]; w_schema_build := BuildOk;
-            w_remote := None; w_schema_errors := []; w_plugin_err := None;
+            w_url := Introspect.UOk; w_resp := ok_resp; w_deep := None; w_schema_errors := []; w_plugin_err := None;
             w_query_files := [{| gf_path := "q.graphql"; gf_ok := true |}]; w_op_errors := [];
             w_ops := [{| op_name := Some "Client"; op_err := None |}]; w_fragments := false; w_query_type := true; w_mutation_type := false |})
     = Failed PhGenerate (mkerr ParsingError "Duplicated file names: ").
